@@ -518,6 +518,9 @@ func (f *memFile) Close() error {
 }
 
 func (f *memFile) Read(p []byte) (int, error) {
+	if len(p) == 0 {
+		return 0, nil
+	}
 	f.n.mu.Lock()
 	defer f.n.mu.Unlock()
 	if f.n.mode.IsDir() {
